@@ -46,8 +46,9 @@ Theorem C13_equiv_partial : forall (ts : list (path * @task path action)) (L : l
   (forall a, In a L -> exists T, aget path_eqb a ts = Some T) ->
   (* both are consistent on the triggered tasks *)
   (forall a, In a L -> cons_at ts sa a) -> (forall a, In a L -> cons_at ts sb a) ->
-  (* and agree off the triggered targets *)
-  (forall q, (forall a, In a L -> overlap a q = false) -> nget sa q = nget sb q) ->
+  (* and agree on what the triggered tasks read off the triggered targets *)
+  (forall a T e q, In a L -> aget path_eqb a ts = Some T -> t_act T = AExpr e -> In q (reads e) ->
+                   (forall c, In c L -> overlap c q = false) -> nget sa q = nget sb q) ->
   (* reads of a triggered task that overlap a triggered target are covered by it *)
   (forall a T e q b, In a L -> aget path_eqb a ts = Some T -> t_act T = AExpr e -> In q (reads e) ->
                      In b L -> overlap b q = true -> is_prefix b q = true) ->
